@@ -77,7 +77,7 @@ def accessorsDisagree (err : Json) : Option String :=
     else if hasAnn && !(display.startsWith ("Error: " ++ message ++ " (") && display.endsWith ")") then some "display-annotations"
     else if !(debug.startsWith (display ++ "\n")) then some "debug"
     else match acc.getObjValAs? String "source" with
-      | .ok src => if message.endsWith src then none else some "source"   -- every wrapped cause is quoted at the end of the message
+      | .ok src => if message.endsWith src then none else some "source"   -- the crate's own conversions (`From<..> for Error`) quote the cause at the end of the message
       | .error _ => none
 
 def hexDigit (c : Char) : Option Nat :=
